@@ -2059,7 +2059,8 @@ class JoinOn(Join):
         )
 
     def validate(self, _from: Sequence[Table], _joins: Sequence[Table]) -> None:
-        criterion_tables = set([f.table for f in self.criterion.fields_()])
+        # (a column given without a table refers to no source: it cannot be missing)
+        criterion_tables = set([f.table for f in self.criterion.fields_() if f.table is not None])
         available_tables = set(_from) | {join.item for join in _joins} | {self.item}
         missing_tables = criterion_tables - available_tables  # type:ignore[operator]
         if missing_tables:
